@@ -460,7 +460,7 @@ impl SparseMatrix {
 /// A node in the graph associated to a sparse matrix
 ///
 /// A node can represent a row or a column of the graph.
-#[derive(Debug, Copy, Clone, Eq, PartialEq)]
+#[derive(Debug, Copy, Clone, Eq, PartialEq, Hash)]
 pub enum Node {
     /// Node representing row number `n`
     Row(usize),
